@@ -647,8 +647,10 @@ pub fn run(run: &Run) {
         run_world(run, NetID::Testnet, &[1, 2, 100], &[(2, false), (16, false), (3, true)], thorough);
     }
     // two inputs of different ages (Mainnet: the first input alone must be 100 blocks old)
-    two_input_mints(run, NetID::Mainnet, 97, &[(3, true), (8, false)]);
-    two_input_mints(run, NetID::Custom02, 3, &[(3, true), (8, false)]);
+    // (difficulties 11 / 18: the reward allowed for the age of the first input differs by several units from the one allowed for
+    // the age of the other input - at 3 / 8 both are zero and a bound taken from the wrong input shows nothing: seed C18-r13-2)
+    two_input_mints(run, NetID::Mainnet, 97, &[(3, true), (8, false), (11, true), (18, false)]);
+    two_input_mints(run, NetID::Custom02, 3, &[(3, true), (8, false), (11, true), (18, false)]);
     formula_grid(run);
     // the process-wide inflator table under every interleaving of a few threads (loom), then the free-running sampling supplement
     crate::loomrun::inflator_interleavings(run, "C18");
